@@ -113,7 +113,7 @@ def run(shard, tier, seed):
                                   dts=[1_000_000, 1_000_000, 10_000] if saturate else None)
         r = chainexec.Run(case, ("C06",))
         r.execute()
-        if r.harness:
+        if r.degenerate():
             res.error(r.harness[0])
             return
         led = r.world.uni
